@@ -3,10 +3,10 @@
 set -e
 HERE="$(cd "$(dirname "$0")" && pwd)"
 export OCAMLRUNPARAM="${OCAMLRUNPARAM:-s=4M,i=256M}"
+cd "$HERE"
+PYTHONPATH="$HERE/tools" python3 -c "import vlib; vlib.gen_coqproject()"
 cd "$HERE/coq"
-coq_makefile -f _CoqProject -o Makefile > /dev/null
-timeout 3000 make -j8 2>&1 | grep -v '^Axioms:\|^  \|^Closed under\|^[A-Za-z.]*$' | tail -40
-test "${PIPESTATUS[0]}" = 0
+timeout 3400 make -j6 > "$HERE/.setup_make.log" 2>&1 || { tail -60 "$HERE/.setup_make.log"; echo "setup: make failed"; exit 1; }
 cd "$HERE"
 mkdir -p evidence replays
 if command -v python3-vt >/dev/null; then
